@@ -226,6 +226,9 @@ def drive_c05(sess, rnd, cfg, record):
             e = g.op_change(sess.model)
             if e:
                 yield _emit(record, e)
+            if R.chance(0.4):
+                # the mux keeps its priority order across a restart
+                yield _emit(record, {"op": "restart", "replace": True})
             if sess.model.mux() is not None:
                 yield _emit(record, {"op": "mux_patterns"})
     op = make_observe(g, sess.model, cfg)
